@@ -182,7 +182,7 @@ def run_case(case):
             clients.append(_mk_client(ckind, w, None))
             clients[1].transaction.tid = case['tid_start']      # the same ids on both connections
             labels.append('two-clients')
-        state = [{'leftovers': [], 'rest': b''} for _ in clients]     # per client: frames / bytes still in its receive path
+        state = [{'leftovers': [], 'rest': b'', 'dirty': None} for _ in clients]     # per client: frames / bytes still in its receive path
         for i, tx in enumerate(case['txs']):
             client = clients[i % len(clients)]
             leftovers, rest = state[i % len(clients)]['leftovers'], state[i % len(clients)]['rest']
@@ -201,13 +201,17 @@ def run_case(case):
             if framing != 'tcp' and not ckind.startswith('tcp+'):
                 rest = b''           # a serial client flushes its input before it sends
                 leftovers = []
+            st_ = state[i % len(clients)]
+            if st_['dirty'] is not None and (client.socket is not st_['dirty'] or framing != 'tcp' and not ckind.startswith('tcp+')):
+                st_['dirty'] = None            # the client has given that connection up (or flushes its input before it sends)
+            dirty_at_start = st_['dirty'] is not None
             try:
                 result = client.execute(req)
             except transports.StepBudgetExceeded as e:
                 discs.append(Disc('no-termination', 'tx %d: %s' % (i, e)))
                 break
             except Exception as e:
-                if tx['script'] in (['reply'], ['exc']) and not rest:
+                if tx['script'] in (['reply'], ['exc']) and not rest and not dirty_at_start:
                     discs.append(Disc('conformant-reply-not-returned', '%s tx %d %s unit %d (tid counter started at %d): a conformant peer answers but the call raised %s: %s' % (
                         ckind, i, tx['kind'], tx['unit'], case['tid_start'], type(e).__name__, e)))
                 else:
@@ -221,7 +225,9 @@ def run_case(case):
                 break
             req_tid = refframe.parse_one(framing, peer.written[-1])['tid'] if peer.written else None
             candidates = leftovers + peer.placed
-            conformant_only = tx['script'] in (['reply'], ['exc']) and not rest
+            # frames scripted in addition to the reply of an earlier call may still be on their way to this call - in the socket or in
+            # a read-ahead buffer of the client - as long as the client keeps the same connection
+            conformant_only = tx['script'] in (['reply'], ['exc']) and not rest and not dirty_at_start
             if isinstance(result, ModbusIOException) or not isinstance(result, ModbusResponse):
                 labels.append('error-object')
                 if conformant_only and not isinstance(result, ModbusResponse):
@@ -262,6 +268,8 @@ def run_case(case):
             rest = conn.rx if conn is not None and not conn.closed else b''
             leftovers = [p for p in candidates if p['frame'] in rest] if rest else []
             state[i % len(clients)]['leftovers'], state[i % len(clients)]['rest'] = leftovers, rest
+            if tx['script'] not in (['reply'], ['exc']) and client.socket is not None:
+                st_['dirty'] = client.socket
     pm.reset_globals()
     return Outcome(discs, labels, nt)
 
